@@ -42,9 +42,11 @@ DefEff == [t |-> 0, kiai |-> FALSE, scroll |-> 1000]
 DefSmp == [t |-> 0, bank |-> 1, vol |-> 100, custom |-> 0]
 DefBeatLen == 1000
 
-\* is_redundant of each kind (times are not compared)
-DifRed(a, b) == a.ticks = b.ticks /\ a.sv = b.sv
-EffRed(a, b) == a.kiai = b.kiai /\ a.scroll = b.scroll
+\* is_redundant of each kind (times are not compared).  A NEGATIVE velocity / scroll value stands for a
+\* non-finite one (-1 NaN, -2 infinity; only reachable through struct literals): `|a - b| < epsilon` is
+\* false for it, also against itself, so such a point never counts as a repeat
+DifRed(a, b) == a.ticks = b.ticks /\ a.sv = b.sv /\ a.sv >= 0
+EffRed(a, b) == a.kiai = b.kiai /\ a.scroll = b.scroll /\ a.scroll >= 0
 SmpRed(a, b) == a.bank = b.bank /\ a.vol = b.vol /\ a.custom = b.custom
 
 \* check_already_existing of each kind, evaluated at the moment of the call
